@@ -14,6 +14,7 @@ def envFs (env : String → Cls) : List Fld → Prop
 termination_by structural fs => fs
 def envF (env : String → Cls) : Fld → Prop
   | .scalar _ _ => True
+  | .mapped _ _ _ _ => True
   | .nested _ _ _ ci fs => (env ci.cid).own = ci.ser ∧ (env ci.cid).fields = fs ∧ envFs env fs
 termination_by structural f => f
 end
@@ -49,6 +50,7 @@ theorem c07_cBaseFld_ok (S : StrFns) (env : String → Cls) (dec : String → Op
     ∀ (f : Fld) (cache : Cache), CacheOKn S env dec cache → envF env f →
       (cBaseFld S cache f).1 = baseFld S true f ∧ CacheOKn S env dec (cBaseFld S cache f).2
   | .scalar n o, cache, h, _ => by simp [cBaseFld, baseFld, h]
+  | .mapped n o ci fs, cache, h, _ => by simp [cBaseFld, baseFld, h]
   | .nested n o sh ci fs, cache, h, he => by
     simp only [envF] at he
     obtain ⟨he1, he2, he3⟩ := he
